@@ -588,6 +588,31 @@ def _kl(p):
         o.close("kl_yao_series", float(numpy.max(numpy.abs(y / ref - 1.0))), 1e-2,
                 detail="worst at r=%g" % R[sel][int(numpy.argmax(numpy.abs(y / ref - 1.0)))])
         o.close("kl_yao_vs_kl_vk", float(numpy.max(numpy.abs(y / a[sel] - 1.0))), 1e-2)
+    # the structure function the KL kernel really uses, for every tag it accepts: recovered from the kernel itself
+    # (the kernel is fnorm 2 pi / nth times the FFT over the azimuth of the structure function at the chord lengths)
+    ri, nr = 0.2, 6
+    rad = numpy.asarray(kl.gkl_radii(ri, nr), dtype=float)
+    nth = 5 * nr
+    fnorm = 0.5 * (-1.0) / (2 * numpy.pi * (1 - ri ** 2))
+    th = numpy.arange(nth) * 2 * numpy.pi / nth
+    for outer in sorted(set([2.0, 5.0, float(L0)])):
+        for tag in ("vonKarman", "karman", "vk", "kolmogorov", "kolstf"):
+            ker = numpy.asarray(kl.gkl_kernel(ri, nr, rad.copy(), tag, outer if tag[0] in "vk" and tag != "kolmogorov" and tag != "kolstf" else None))
+            o.stat("lib_calls", 1)
+            worst = 0.0
+            for i in range(nr):
+                for j in range(i + 1):
+                    used = numpy.real(numpy.fft.ifft(ker[i, j, :])) / (fnorm * 2 * numpy.pi / nth)
+                    chord = 0.5 * numpy.sqrt(numpy.maximum(rad[i] ** 2 + rad[j] ** 2 - 2 * rad[i] * rad[j] * numpy.cos(th), 0.0))
+                    if tag in ("kolmogorov", "kolstf"):
+                        want = numpy.asarray(sc.structure_function_kolmogorov(chord.copy(), 1), dtype=float)
+                        tol_ = 1e-3
+                    else:
+                        want = numpy.asarray(sc.structure_function_vk(chord.copy(), 1, outer), dtype=float)
+                        tol_ = 2e-3
+                    scale = max(float(numpy.max(numpy.abs(want))), 1e-300)
+                    worst = max(worst, float(numpy.max(numpy.abs(used - want))) / scale / tol_)
+            o.close("kl_kernel_uses_the_common_structure_function", worst, 1.0, sub="tag=%s:outerscale=%g" % (tag, outer))
     # forms for the KL copy
     for form in FORMS:
         try:
@@ -614,6 +639,12 @@ def _psd(p):
     from aotools.turbulence import phasescreen
     N = p["N"]
     delta, r0, L0, l0 = p["cfg"]
+    # screens that differ in ONE parameter are generated first, in this process (layers of one atmosphere share the
+    # grid and differ in r0): the spectrum of the screen under test must not be theirs
+    for sib in ((r0 * 2.0, delta, L0, l0), (r0 * 0.37, delta, L0, l0), (r0, delta, L0 * 3.0, l0), (r0, delta, L0, l0 * 0.5), (r0, delta * 2.0, L0, l0)):
+        phasescreen.ft_phase_screen(sib[0], N, sib[1], sib[2], sib[3], seed=SeqGenerator(numpy.ones(2 * N * N)))
+        phasescreen.ft_sh_phase_screen(sib[0], N, sib[1], sib[2], sib[3], seed=SeqGenerator(numpy.ones(2 * N * N + 54)))
+    o.stat("lib_calls", 10)
     P, f, calls, zmax = _extract_psd(N, delta, r0, L0, l0, o)
     o.check("screen_draw_requests", calls == [(N, N), (N, N)], detail="normal() requests %s" % (calls,))
     o.close("screen_zero_draws_zero_screen", zmax, 0.0)
